@@ -1,4 +1,5 @@
 import XrsVerif.Proofs.ILangVstree
+import XrsVerif.Proofs.ILangProx
 import XrsVerif.Gen.IL
 /-
   Proofs/ILangVssweep.lean -- generic ILang lemmas and the *templates over a name prefix* for the small geometry
@@ -18,7 +19,120 @@ namespace XrsVerif.ILSw
 open XrsVerif XrsVerif.IL
 variable {F : Type} [Fl F]
 set_option linter.unusedSectionVars false
+set_option linter.unusedSimpArgs false
+set_option linter.unusedVariables false
 
+/-! ### environments, sequencing -/
+
+theorem setS_apply {α} (env : String → α) (v w : String) (x : α) : setS env v x w = if w = v then x else env w := rfl
+
+theorem setS_comm {α} (env : String → α) (v w : String) (x y : α) (h : v ≠ w) :
+    setS (setS env v x) w y = setS (setS env w y) v x := by
+  funext u; simp only [setS]; by_cases h1 : u = w <;> by_cases h2 : u = v <;> simp [h1, h2]
+  · exact absurd (h2.symm.trans h1) h
+  · intro e; exact absurd e.symm h
+  · intro e; exact absurd e h
+
+/-- closes `setS (setS … ) … = setS (setS …) …` between environments that agree pointwise -/
+macro "env_eq" : tactic =>
+  `(tactic| (funext v; simp only [setS_apply]; repeat' split; all_goals simp_all))
+
+theorem exec_seq_eq (fuel : Nat) (a b : St) (s s' : State F) (h : exec fuel a s = s') (hr : s'.ctl = .run) :
+    exec fuel (.seq a b) s = exec fuel b s' := by
+  rw [ILVs.exec_seq_run _ _ _ _ (by rw [h]; exact hr), h]
+
+/-! ### writing a row of a 2-D array -/
+
+/-- the first `k` cells of row `r` (of width `C`) overwritten with `f 0 … f (k-1)` -/
+def setRowK {α} (l : List α) (C r : Nat) (f : Nat → α) (k : Nat) : List α :=
+  (List.range k).foldl (fun acc c => acc.set (r * C + c) (f c)) l
+
+/-- row `r` overwritten with `f` -/
+def setRow {α} (l : List α) (C r : Nat) (f : Nat → α) : List α := setRowK l C r f C
+
+theorem setRowK_succ {α} (l : List α) (C r : Nat) (f : Nat → α) (k : Nat) :
+    setRowK l C r f (k + 1) = (setRowK l C r f k).set (r * C + k) (f k) := by
+  simp [setRowK, List.range_succ, List.foldl_append]
+
+@[simp] theorem length_setRowK {α} (l : List α) (C r : Nat) (f : Nat → α) (k : Nat) :
+    (setRowK l C r f k).length = l.length := by
+  induction k with
+  | zero => rfl
+  | succ k ih => rw [setRowK_succ, List.length_set, ih]
+
+@[simp] theorem length_setRow {α} (l : List α) (C r : Nat) (f : Nat → α) : (setRow l C r f).length = l.length :=
+  length_setRowK l C r f C
+
+theorem getD_setRowK {α} (l : List α) (C r : Nat) (f : Nat → α) (k idx : Nat) (d : α) :
+    (setRowK l C r f k).getD idx d =
+      if r * C ≤ idx ∧ idx < r * C + k ∧ idx < l.length then f (idx - r * C) else l.getD idx d := by
+  induction k with
+  | zero =>
+    have : ¬ (r * C ≤ idx ∧ idx < r * C + 0 ∧ idx < l.length) := by omega
+    simp only [this, if_false]; rfl
+  | succ k ih =>
+    rw [setRowK_succ, Px.getD_set, ih, length_setRowK]
+    by_cases h1 : r * C + k = idx
+    · subst h1
+      by_cases h2 : r * C + k < l.length
+      · simp [h2]
+      · simp [h2]
+    · by_cases h2 : r * C ≤ idx ∧ idx < r * C + k ∧ idx < l.length
+      · have : r * C ≤ idx ∧ idx < r * C + (k + 1) ∧ idx < l.length := by omega
+        simp [h1, h2, this]
+      · have : ¬ (r * C ≤ idx ∧ idx < r * C + (k + 1) ∧ idx < l.length) := by omega
+        simp [h1, h2, this]
+
+theorem getD_setRow {α} (l : List α) (C r : Nat) (f : Nat → α) (idx : Nat) (d : α) :
+    (setRow l C r f).getD idx d =
+      if r * C ≤ idx ∧ idx < r * C + C ∧ idx < l.length then f (idx - r * C) else l.getD idx d :=
+  getD_setRowK l C r f C idx d
+
+
+theorem setS_self' {α} (env : String → α) (v : String) : setS env v (env v) = env := by
+  funext w; simp only [setS]; split <;> simp_all
+
+theorem setS_setS {α} (env : String → α) (v : String) (a b : α) : setS (setS env v a) v b = setS env v b := by
+  funext w; simp only [setS]; split <;> rfl
+
+/-- **a loop that fills one row of a 2-D numeric array**: `for kv in range(C): dst[rE, kv] = val` with `rE` evaluating to the
+    row `r` and `val` to `f kv` whatever the row `r` of `dst` currently holds -/
+theorem rowLoop_exec (dst kv : String) (hiE rE : IE) (val : FE) (s : State F) (fuel R C r : Nat) (f : Nat → F)
+    (hs : s.ctl = .run) (hshp : s.shp dst = [R, C]) (hlen : (s.fa dst).length = R * C) (hr : r < R) (hC : 0 < C)
+    (hhi : hiE.ok s = true ∧ hiE.eval s = (C : Int))
+    (hst : ∀ (k : Nat) (l : List F), k < C → l.length = R * C →
+      (∀ idx, ¬ (r * C ≤ idx ∧ idx < r * C + C) → l.getD idx Fl.nan = (s.fa dst).getD idx Fl.nan) →
+      rE.ok { s with ienv := setS s.ienv kv (k : Int), fa := setS s.fa dst l } = true ∧
+      rE.eval { s with ienv := setS s.ienv kv (k : Int), fa := setS s.fa dst l } = (r : Int) ∧
+      val.ok { s with ienv := setS s.ienv kv (k : Int), fa := setS s.fa dst l } = true ∧
+      val.eval { s with ienv := setS s.ienv kv (k : Int), fa := setS s.fa dst l } = f k) :
+    exec fuel (.forRange kv (.lit 0) hiE (.lit 1) (.stF2 dst rE (.var kv) val)) s =
+      { s with ienv := setS s.ienv kv ((C - 1 : Nat) : Int), fa := setS s.fa dst (setRow (s.fa dst) C r f) } := by
+  obtain ⟨ie, fe, be, ia, fa, shp, ext, ctl⟩ := s
+  simp only at hs hshp hlen hhi hst
+  subst hs
+  have h := Px.forRange_up kv hiE (.stF2 dst rE (.var kv) val) _ fuel C rfl hhi.1 hhi.2
+    (fun k st => st = ⟨setS ie kv (if k = 0 then ie kv else ((k - 1 : Nat) : Int)), fe, be, ia,
+        setS fa dst (setRowK (fa dst) C r f k), shp, ext, .run⟩)
+    (by
+      have e1 : setS ie kv (ie kv) = ie := setS_self' _ _
+      have e2 : setS fa dst (fa dst) = fa := setS_self' _ _
+      simp [setRowK, e1, e2])
+    (fun k hk st hrun hP => by
+      subst hP
+      obtain ⟨o1, o2, o3, o4⟩ := hst k (setRowK (fa dst) C r f k) hk (by simp [hlen])
+        (fun idx hidx => by
+          rw [getD_setRowK]
+          have : ¬ (r * C ≤ idx ∧ idx < r * C + k ∧ idx < (fa dst).length) := by omega
+          simp [this])
+      simp only [setS_setS] at *
+      have hin1 : inRange (r : Int) R = true := inRange_of_lt r R hr
+      have hin2 : inRange (k : Int) C = true := inRange_of_lt k C hk
+      simp [exec, o1, o2, o3, o4, IE.ok, IE.eval, hshp, hin1, hin2, off2_nat, setS_apply, afterBody, setRowK_succ,
+        setS_setS])
+  rw [h.2]
+  have : ¬ C = 0 := by omega
+  simp [this, setRow]
 /-! ### names -/
 
 @[simp] theorem pfx_eq (p a b : String) : (p ++ a = p ++ b) = (a = b) :=
